@@ -55,4 +55,33 @@ if [ $bad -ne 0 ]; then
   echo "VIOLATION property=C11 replay=$R"; echo "  regenerated sources differ:$list"; exit 1
 fi
 echo "regeneration: $n generated files byte-identical to the committed ones"
+
+# ---- compiled-and-run leg: tonic-build output for a fixed family of descriptors is compiled by
+# c11gen's build script (real generator from /repo) and every generated client method is called
+# against the generated server of its service.
+export CARGO_TARGET_DIR="$ROOT/target/c11gen-target"
+( cd "$ROOT/c11gen" && timeout 1500 cargo build --offline ) > "$ROOT/target/c11gen.log" 2>&1
+rc=$?
+if [ $rc -ne 0 ]; then
+  grep -E "^error|panicked" -A6 "$ROOT/target/c11gen.log" | head -30
+  if [ $rc -eq 124 ]; then echo "INCONCLUSIVE property=C11 reason=watchdog leg=c11gen-build"; exit 3; fi
+  echo "INCONCLUSIVE property=C11 reason=the generated code of the descriptor family (or tonic itself) does not compile on the current tree; nothing was run leg=c11gen"; exit 3
+fi
+REP="$ROOT/target/c11gen-report.json"
+timeout 300 "$CARGO_TARGET_DIR/debug/verif-c11gen" "$REP"; rc=$?
+python3 - "$EV" "$REP" <<'PY'
+import json,sys
+try:
+    ev=json.load(open(sys.argv[1])); rep=json.load(open(sys.argv[2]))
+    ev["coverage"]["generated_code_compiled_and_run"]=rep
+    if rep.get("violations"): ev["violations"]=ev.get("violations",0)+rep["violations"]
+    json.dump(ev,open(sys.argv[1],"w"),indent=2)
+except Exception as e:
+    print("C11 leg: could not merge the c11gen report into evidence:",e)
+PY
+if [ $rc -eq 1 ]; then
+  mkdir -p "$ROOT/replays"; cp "$REP" "$ROOT/replays/C11-generated-code-run.json"
+  echo "VIOLATION property=C11 replay=$ROOT/replays/C11-generated-code-run.json"; exit 1
+fi
+if [ $rc -ne 0 ]; then echo "INCONCLUSIVE property=C11 reason=c11gen exited $rc leg=c11gen"; exit 3; fi
 exit 0
